@@ -10,6 +10,7 @@ import (
 	"testing"
 
 	"verif/harness/ast"
+	"verif/harness/ev"
 	"verif/harness/gen"
 	"verif/harness/jsonx"
 	"verif/harness/ref"
@@ -296,6 +297,26 @@ func genC17(t *rapid.T) (*DCase, map[string]bool, bool) {
 		stmts = append(stmts, ast.Print(ast.Arr(els...)), ast.Print(ast.Obj(kvs...), ast.Arr(els[1].Clone(), els[0].Clone())))
 		g.labels["gallery-of-containers"] = true
 	}
+	if len(g.nodes) >= 1 && g.n(0, 3, "latecycle") == 0 {
+		// a container that was printed while it had no cycle gets one afterwards (a reference
+		// back to itself or to another container, stored into it or below it) and is printed again
+		x := g.nodes[g.n(0, len(g.nodes)-1, "latex")]
+		y := g.nodes[g.n(0, len(g.nodes)-1, "latey")]
+		xv, yv := ast.Id(nodeVar(x.index)), ast.Id(nodeVar(y.index))
+		stmts = append(stmts, ast.Print(ast.Str("BEFORE"), xv.Clone(), yv.Clone()))
+		if y.kind == "arr" {
+			stmts = append(stmts, ast.ExprS(ast.Method(yv.Clone(), "push", xv.Clone())))
+		} else {
+			stmts = append(stmts, ast.ExprS(ast.Set(ast.Mem(yv.Clone(), "late"), xv.Clone())))
+		}
+		if x.kind == "arr" {
+			stmts = append(stmts, ast.ExprS(ast.Method(xv.Clone(), "push", ast.Arr(yv.Clone()))))
+		} else {
+			stmts = append(stmts, ast.ExprS(ast.Set(ast.Mem(xv.Clone(), "late2"), ast.Obj(ast.KV("k", yv.Clone())))))
+		}
+		stmts = append(stmts, ast.Print(ast.Str("AFTER"), xv.Clone(), yv.Clone()), ast.Print(ast.Arr(yv.Clone(), xv.Clone())))
+		g.labels["cycle-added-after-a-first-print"] = true
+	}
 	doc := gen.JSONDoc(gen.DocOpts{Depth: 2, MaxItems: 3, SafeStr: true, ForceEmpty: true}).Draw(t, "doc")
 	items := []*ast.Node{
 		ast.Func("c17sh", []string{"c17v"}, ast.Block(ast.Print(ast.Str("inner"), ast.Id("c17v"), ast.Str("")), ast.Return(ast.Id("c17v")))),
@@ -368,6 +389,18 @@ func sameNumbers(a, b *jsonx.Val) string {
 	return ""
 }
 
+func firstDiff(a, b string) int {
+	for k := 0; k < len(a) && k < len(b); k++ {
+		if a[k] != b[k] {
+			return k
+		}
+	}
+	if len(a) < len(b) {
+		return len(a)
+	}
+	return len(b)
+}
+
 func TestC17(t *testing.T) {
 	rec := start(t, "C17", "exploration",
 		"(a) numbers: every stratum of finite doubles plus uniformly random bit patterns, delivered through JSON input, as literals and through arithmetic; the printed text must match ^-?[0-9]+(\\.[0-9]+)?$ and, converted with exact rational arithmetic, give back the identical bit pattern (sign of zero included). (b) programs that build values from a random shape - scalars, strings over all bytes, arrays and objects nested to depth 3 with empty containers, the same container stored several times (sharing), back-edges to ancestors (cycles of any length through arrays, objects and mixtures) - using only element and member stores at fixed lengths, then print them with 0-4 arguments (bare print and body-less rule included); expected bytes from refjq (4.6): <circular reference> exactly at recurrence points, sharing printed in full. (c) documents with safe strings: the rendering parses as JSON equal to the value. Non-trivial: number outside [1e-5,1e15) or >= 16 significant digits or -0; value with depth >= 3, an empty container, sharing or a cycle. distinct = distinct case.")
@@ -399,6 +432,33 @@ func TestC17(t *testing.T) {
 	}
 	excl.ArrayAlias = rec.KnownActive("KF-array-alias", false)
 	rec.ReplayTier()
+
+	// values nested deeper than any document can be (the decoder stops at 10000), built by the
+	// program: printed in full (direct oracle: the text)
+	if sh, _ := ev.Shard(); sh == 0 {
+		type deepPrint struct {
+			Prog string `json:"prog"`
+			N    int    `json:"n"`
+		}
+		for _, n := range []int{100, 9999, 10000, 10001, 12000, 30000} {
+			for _, shape := range []string{"arr", "obj"} {
+				var src, want string
+				if shape == "arr" {
+					src = fmt.Sprintf("BEGIN { a = [7]; for (i = 0; i < %d; i++) a = [a]\nprint a }", n)
+					want = strings.Repeat("[", n+1) + "7" + strings.Repeat("]", n+1) + "\n"
+				} else {
+					src = fmt.Sprintf("BEGIN { a = {k: 7}; for (i = 0; i < %d; i++) a = {k: a}\nprint a }", n)
+					want = strings.Repeat("{\"k\": ", n+1) + "7" + strings.Repeat("}", n+1) + "\n"
+				}
+				o := run.InProc(src, nil, nil, run.Opts{Budget: 2_000_000_000})
+				rec.Case(fmt.Sprintf("deep-print %s %d", shape, n), n >= 10000, "deep-nesting")
+				if o.Class != "ok" || string(o.Stdout) != want {
+					got := string(o.Stdout)
+					rec.Violation("deep-print", deepPrint{src, n}, src, fmt.Sprintf("a value nested %d deep: outcome %s (%s), %d bytes printed, expected %d (first difference at byte %d)", n+1, o.Class, o.Msg, len(got), len(want), firstDiff(got, want)))
+				}
+			}
+		}
+	}
 
 	check(rec, "number-random", scale(12000, 20000000), func(rt *rapid.T) {
 		var x float64
